@@ -116,58 +116,216 @@ def check_stop_agreement(run, rule):
     run.info["stop_code_test_sites"] = len([s for s in sites if s[3]])
 
 
-def skip_groups(facts, rule):
+def skip_actions(facts, rule):
+    """Tabulates what one iteration of skip_item's work loop does after read_cbor_type(), for every major type and a
+    representative of every class of additional information.  Returns (fn, {(major name, ai): [action,..]}) with actions
+    ('throw',) | ('read_int',) | ('read_string', indef) | ('push', count, indef) where count is an int or 'N' (the
+    argument just read) or 'N*2'.  Control flow is followed concretely (the two bytes of the head decide it)."""
     f = dfn(facts, "skip_item", rule)
-    sws = [n for n in ir.walk(f["body"]) if n.get("k") == "Switch"]
-    if len(sws) != 1:
-        raise AnalysisBroken(rule, "skip_item: expected one switch on the major type")
-    return f, sws[0], consumption.case_groups(sws[0])
+    loops = [n for n in ir.walk(f["body"]) if n.get("k") in ("While", "For", "Do")]
+    region = None
+    tvar = avar = None
+    for lp in loops:
+        body = ir.stmts(lp.get("body"))
+        for i, s_ in enumerate(body):
+            for c in ir.calls_in(s_):
+                if callee_qn(c) == "CDNS::CdnsDecoder::read_cbor_type" and len(c.get("args", [])) == 2 and region is None:
+                    tvar, avar = path_str(path(c["args"][0])), path_str(path(c["args"][1]))
+                    region = body[i + 1:]
+    if region is None:
+        # recursive form: the head is read at function level
+        body = ir.stmts(f["body"])
+        for i, s_ in enumerate(body):
+            for c in ir.calls_in(s_):
+                if callee_qn(c) == "CDNS::CdnsDecoder::read_cbor_type" and len(c.get("args", [])) == 2 and region is None:
+                    tvar, avar = path_str(path(c["args"][0])), path_str(path(c["args"][1]))
+                    region = body[i + 1:]
+    if region is None:
+        raise AnalysisBroken(rule, "skip_item: no read_cbor_type(type, ai) call found")
+    cb = facts.enum("CDNS::CborType", rule=rule)
+    majors = [(e["n"], e["v"]) for e in cb["enumerators"] if e["n"] != "BREAK"]
+    enums = facts.enums
+
+    class Stop(Exception):
+        pass
+
+    def run_cell(mv, ai):
+        env = {tvar: mv, avar: ai}
+        acts = []
+        counts = {}         # local key -> 'N'
+
+        def descr(e_):
+            u_ = ir.unwrap_all_casts(e_)
+            if isinstance(u_, dict) and u_.get("k") in ("MCall", "Call") and callee_name(u_) == "read_int":
+                acts.append(("read_int",))
+                return "N"
+            p_ = path(u_) if isinstance(u_, dict) else None
+            if p_ is not None and path_str(p_) in counts:
+                return counts[path_str(p_)]
+            if isinstance(u_, dict) and u_.get("k") == "Bin" and u_.get("op") == "*":
+                a_, b_ = descr(u_["lhs"]), descr(u_["rhs"])
+                if a_ == "N" and b_ == 2 or b_ == "N" and a_ == 2:
+                    return "N*2"
+            try:
+                return minieval.ev(unwrap(e_), env, enums)
+            except minieval.Unknown:
+                return "?"
+
+        def call(u_):
+            nm = callee_name(u_)
+            if nm == "read_int":
+                acts.append(("read_int",))
+            elif nm == "read_string":
+                a = u_.get("args", [])
+                n_ = descr(a[1]) if len(a) > 1 else "?"
+                indef_ = descr(a[2]) if len(a) > 2 else "?"
+                acts.append(("read_string", bool(indef_) if indef_ != "?" else "?"))
+            elif nm in ("push_back", "emplace_back"):
+                elems = []
+                for x in ir.walk(u_):
+                    if x.get("k") == "InitList":
+                        elems = [y for y in x.get("c", []) if isinstance(y, dict)]
+                        break
+                if not elems:
+                    elems = [a_ for a_ in u_.get("args", [])]
+                if len(elems) >= 2:
+                    acts.append(("push", descr(elems[0]), bool(descr(elems[1])) if descr(elems[1]) != "?" else "?"))
+                else:
+                    acts.append(("push", "?", "?"))
+            elif nm == "skip_item":
+                acts.append(("push", 1, False))        # recursion: one more item is skipped
+            elif nm in ("to_string", "c_str", "operator+"):
+                pass
+            else:
+                for a_ in u_.get("args", []):
+                    for c_ in ir.calls_in(a_):
+                        call(c_)
+
+        def walk_(stmts_):
+            for s_ in stmts_:
+                u_ = unwrap(s_)
+                k_ = u_.get("k")
+                if k_ == "Block":
+                    walk_(u_.get("s", []))
+                elif k_ == "If":
+                    t_ = minieval.ev(unwrap(u_["cond"]), env, enums)
+                    br = u_.get("then") if t_ else u_.get("else")
+                    if br is not None:
+                        walk_(ir.stmts(br))
+                elif k_ == "Switch":
+                    on = minieval.ev(unwrap(u_["cond"]), env, enums)
+                    hit = dflt = None
+                    for labels, sts_, falls, line in consumption.case_groups(u_):
+                        if any(l[0] == "case" and l[1] == on for l in labels):
+                            hit = (sts_, falls)
+                        if any(l[0] == "default" for l in labels):
+                            dflt = (sts_, falls)
+                    sel = hit or dflt
+                    if sel is not None:
+                        if sel[1]:
+                            acts.append(("fallthrough",))
+                        try:
+                            walk_([x for x in sel[0]])
+                        except Stop as st_:
+                            if str(st_) != "break":
+                                raise
+                elif k_ == "Throw":
+                    acts.append(("throw",))
+                    raise Stop("throw")
+                elif k_ == "Break":
+                    raise Stop("break")
+                elif k_ == "Continue":
+                    acts.append(("continue",))        # what this means depends on the bookkeeping around the region
+                    raise Stop("leave")
+                elif k_ == "Return":
+                    raise Stop("leave")
+                elif k_ == "Decl":
+                    for v in u_.get("vars", []):
+                        if "n" not in v or v.get("init") is None:
+                            continue
+                        key_ = "l:%s#%s" % (v["n"], v["id"])
+                        d_ = descr(v["init"])
+                        if d_ in ("N", "N*2"):
+                            counts[key_] = d_
+                        elif d_ != "?":
+                            env[key_] = d_
+                elif k_ in ("Call", "MCall", "OpCall"):
+                    call(u_)
+                elif k_ == "Bin" and u_.get("op", "").endswith("=") and u_["op"] not in ("==", "!=", "<=", ">="):
+                    for c_ in ir.calls_in(u_.get("rhs")):
+                        call(c_)
+                elif k_ == "Un":
+                    pass
+                elif k_ == "Null":
+                    pass
+                else:
+                    raise minieval.Unknown("statement %s" % k_)
+        try:
+            walk_(region)
+        except Stop:
+            pass
+        return acts
+    table = {}
+    for name, mv in majors:
+        for ai in (0, 23, 24, 27, 28, 30, 31):
+            try:
+                table[(name, ai)] = run_cell(mv, ai)
+            except minieval.Unknown as ex:
+                table[(name, ai)] = [("unknown", str(ex))]
+    return f, table
 
 
 def check_skip(run, rule_exh="R07.1", rule_tag="R07.3"):
+    """skip_item consumes exactly one data item: per major type and class of additional information the iteration does
+    what RFC 8949 prescribes for that head (tabulated over the 8 x 7 head classes, independent of switch / if-chain)."""
     facts = run.facts
-    f, sw, groups = skip_groups(facts, rule_exh)
+    f, table = skip_actions(facts, rule_exh)
     cb = facts.enum("CDNS::CborType", rule=rule_exh)
     majors = [e["n"] for e in cb["enumerators"] if e["n"] != "BREAK"]
-    covered = {}
-    for labels, stmts_, falls, line in groups:
-        for l in labels:
-            if l[0] == "case":
-                er = ir.enum_ref(l[2])
-                if er:
-                    covered[er[1]] = (labels, stmts_, falls, line)
+
+    def expected(mj, ai):
+        if 28 <= ai <= 30:
+            return [[("throw",)]]
+        if mj in ("UNSIGNED", "NEGATIVE"):
+            return [[("throw",)]] if ai == 31 else [[("read_int",)]]
+        if mj == "TAG":
+            return [[("throw",)]] if ai == 31 else [[("read_int",), ("push", 1, False)]]
+        if mj == "SIMPLE":
+            return None if ai == 31 else [[("read_int",)]]
+        if mj in ("BYTE_STRING", "TEXT_STRING"):
+            return [[("read_int",), ("read_string", ai == 31)]]
+        if mj == "ARRAY":
+            return [[("push", 0, True)]] if ai == 31 else [[("read_int",), ("push", "N", False)]]
+        if mj == "MAP":
+            return [[("push", 0, True)]] if ai == 31 else [[("read_int",), ("push", "N", False), ("push", "N", False)], [("read_int",), ("push", "N*2", False)]]
+        return None
     for mj in majors:
-        ok = mj in covered
-        run.ob(rule_exh, "skip_item:arm(%s)" % mj, ok, f, covered[mj][3] if ok else sw["l"],
-               "major type %s is skipped by its own arm" % mj if ok else
-               "skip_item has no arm for major type %s: a well-formed item of that type inside an unknown member raises instead of being skipped" % mj)
-        if ok and covered[mj][2]:
-            run.ob(rule_exh, "skip_item:arm(%s):break" % mj, False, f, covered[mj][3], "arm falls through into the next one")
+        bad = []
+        unknown = []
+        for ai in (0, 23, 24, 27, 28, 30, 31):
+            exp = expected(mj, ai)
+            got = table.get((mj, ai))
+            if exp is None:
+                continue
+            if got and got[0][0] == "unknown":
+                unknown.append("ai %d: %s" % (ai, got[0][1]))
+            elif got and ("continue",) in got and got not in exp:
+                unknown.append("ai %d: leaves the iteration early (%s); its effect depends on bookkeeping outside the dispatch" % (ai, got))
+            elif got not in exp:
+                bad.append("ai %d: does %s, a well-formed head of this kind needs %s" % (ai, got, exp[0]))
+        ok = None if unknown and not bad else (not bad)
+        run.ob(rule_exh, "skip_item:arm(%s)" % mj, ok, f, f["line"],
+               "major type %s: argument, content and nesting are consumed as RFC 8949 prescribes for every class of additional information" % mj if ok else
+               ("skip_item, major type %s: %s" % (mj, "; ".join(bad or unknown))))
     run.floor(rule_exh, 8, "major types")
     # TAG: content must be skipped after the tag number
-    if "TAG" in covered:
-        labels, stmts_, falls, line = covered["TAG"]
-        shared = [ir.enum_ref(l[2])[1] for l in labels if l[0] == "case" and ir.enum_ref(l[2])]
-        calls = [callee_name(c) for s in stmts_ for c in ir.calls_in(s) if (c.get("callee") or {}).get("cls") == DEC]
-        has_int = "read_int" in calls or "read_unsigned" in calls
-        # the content is skipped either by a nested skip_item() or by scheduling exactly one more item on the
-        # function's own work list (push_back/emplace_back of a level holding the constant 1)
-        scheduled = []
-        for s_ in stmts_:
-            for c in ir.calls_in(s_):
-                if callee_name(c) in ("push_back", "emplace_back") and path(c.get("recv")) and path(c.get("recv"))[0].startswith("l:"):
-                    consts = [const_value(x) for x in ir.walk(c) if x.get("k") == "Lit" and not isinstance(x.get("v"), bool)]
-                    scheduled.append(consts)
-        has_skip = "skip_item" in calls or (len(scheduled) == 1 and scheduled[0][:1] == [1])
-        ok = has_int and has_skip and shared == ["TAG"]
-        why = "tag number consumed, then the enclosed item is skipped"
-        if not has_skip:
-            why = "the TAG arm%s reads the tag number but does not skip the tagged content: the content is then read as the next item" % (
-                " (shared with %s)" % [s for s in shared if s != "TAG"] if len(shared) > 1 else "")
-        elif shared != ["TAG"]:
-            ok = False
-            why = "TAG shares its arm with %s, which must not skip a second item" % [s for s in shared if s != "TAG"]
-        run.ob(rule_tag, "skip_item:TAG-content", ok, f, line, why)
+    got = table.get(("TAG", 0))
+    ok = got == [("read_int",), ("push", 1, False)]
+    if not ok and got and (got[0][0] == "unknown" or ("continue",) in got):
+        ok = None
+    run.ob(rule_tag, "skip_item:TAG-content", ok, f, f["line"],
+           "tag number consumed, then the enclosed item is skipped" if ok else
+           "the TAG arm does %s: it must read the tag number and then skip exactly the one tagged item (otherwise the content is read as the next item)" % got)
     run.floor(rule_tag, 1, "tag arm")
 
 
@@ -463,6 +621,10 @@ def check_values(run, rule):
 
 def check(run):
     check_skip(run, "R07.1", "R07.3")
+    # the level stack of skip_item: a reference to the innermost level must not be used after the stack grew (the count of
+    # the enclosing level would be updated in freed memory and one item too many skipped)
+    from . import C03
+    C03.check_invalidation(run, "R07.8", run.facts, only_cls=DEC, floor=0)
     check_stop_agreement(run, "R07.2")
     check_read_int(run, "R07.4")
     check_heads(run, "R07.5")
